@@ -84,7 +84,7 @@ Init ==
   /\ suspFor = NONE /\ suspVar = NONE /\ suspTry = FALSE /\ waitOn = NONE /\ waitTry = FALSE
   /\ vm = "active" /\ phase = "running"
   /\ pst = [p \in Proms |-> "na"] /\ plink = [p \in Proms |-> NONE]
-  /\ cstate = [kind |-> "none", inputs |-> <<>>, remaining |-> 0, done |-> FALSE]
+  /\ cstate = [kind |-> "none", inputs |-> <<>>, remaining |-> 0, done |-> FALSE, sym |-> <<>>]
   /\ last = [r |-> "Prepared", pending |-> <<>>, cancelled |-> <<>>]
   /\ rep = [i \in 1..MaxId |-> 0] /\ crep = [i \in 1..MaxId |-> 0] /\ craised = [i \in 1..MaxId |-> 0]
   /\ hraised = [i \in 1..MaxId |-> 0]
@@ -126,7 +126,7 @@ SettleP(st, p, s) ==
                                               ELSE LET q == CHOOSE q \in S : \A r \in S : q <= r
                                                    IN CancelAll(S \ {q}, RaiseCancel(x, x.plink[q]))
                            s3 == CancelAll(losers, s2)
-                       IN [s3 EXCEPT !.cstate.done = TRUE, !.pst[CP] = s])
+                       IN [s3 EXCEPT !.cstate.done = TRUE, !.pst[CP] = s, !.cstate.sym = <<"p" \o ToString(p)>>])
 
 Susp(st) == [r |-> "Suspended", pending |-> st.pend, cancelled |-> st.canc]
 TakeLists(st) == [st EXCEPT !.pend = <<>>, !.canc = <<>>]
@@ -144,20 +144,26 @@ CombCall(st, kind) ==
       Build(v) == IF v > NV THEN <<>> ELSE (IF v \in pendingVs THEN <<ins[v].p>> ELSE <<>>) \o Build(v + 1)
       inputSeq == Build(1)
       setW(x, s) == [x EXCEPT !.val[W] = [k |-> "prom", p |-> CP], !.pst[CP] = s]
+      \* the VALUE an input contributes (symbolically: the replay harness answers order i with 100+i and fulfils host promise p with 700+p)
+      Sym(v) == IF ins[v].k = "prom" THEN "p" \o ToString(ins[v].p) ELSE IF ins[v].k = "val" THEN "v" \o ToString(st.vord[v]) ELSE ins[v].k
+      RECURSIVE Syms(_)
+      Syms(v) == IF v > NV THEN <<>> ELSE (IF v \in In THEN <<Sym(v)>> ELSE <<>>) \o Syms(v + 1)
+      withSym(x, q) == [x EXCEPT !.cstate.sym = q]
   IN CASE kind = "all" ->
+            \* fulfilled with the array of the inputs' values IN INPUT ORDER, however the settlements are ordered
             (IF anyRej THEN setW(st, "rej")
-             ELSE IF pendingVs = {} THEN setW(st, "ful")
+             ELSE IF pendingVs = {} THEN withSym(setW(st, "ful"), Syms(1))
              ELSE [setW(st, "pending") EXCEPT !.cstate = [kind |-> "all", inputs |-> inputSeq,
-                                                          remaining |-> Cardinality(pendingVs), done |-> FALSE]])
+                                                          remaining |-> Cardinality(pendingVs), done |-> FALSE, sym |-> Syms(1)]])
        [] kind = "race" ->
             \* the first already-settled input (in order) wins; nobody is cancelled on that path
             (IF \E v \in In : status(v) # "pending"
              THEN LET v == CHOOSE v \in In : status(v) # "pending" /\ \A u \in In : u < v => status(u) = "pending"
-                  IN setW(st, status(v))
-             ELSE [setW(st, "pending") EXCEPT !.cstate = [kind |-> "race", inputs |-> inputSeq, remaining |-> 0, done |-> FALSE]])
-       [] kind = "allSettled" -> setW(st, "ful")          \* DEVIATION: settles at once, even over pending inputs
+                  IN withSym(setW(st, status(v)), <<Sym(v)>>)
+             ELSE [setW(st, "pending") EXCEPT !.cstate = [kind |-> "race", inputs |-> inputSeq, remaining |-> 0, done |-> FALSE, sym |-> <<>>]])
+       [] kind = "allSettled" -> withSym(setW(st, "ful"), <<"?">>)          \* DEVIATION: settles at once, even over pending inputs
        [] kind = "any" ->
-            (IF anyFul THEN setW(st, "ful")
+            (IF anyFul THEN withSym(setW(st, "ful"), <<"?">>)
              ELSE IF anyRej /\ pendingVs = {} THEN setW(st, "rej")
              ELSE setW(st, "pending"))                     \* DEVIATION: no reactions registered: never settles
 
@@ -301,10 +307,13 @@ Violated == { n \in PropNames : ~Holds(n) }
 
 \* what the program's completion value reports about its variables
 Final == [v \in 1..W |-> val[v].k]
+\* what `await w` produced, if the script awaited the combinator result and it was fulfilled: the symbolic values (see Sym)
+WGot == IF val[W].k = "prom" /\ pst[CP] = "ful" /\ \E i \in 1..(pc - 1) : i <= Len(script) /\ script[i].o \in {"await", "tawait"} /\ script[i].v = W
+        THEN cstate.sym ELSE <<>>
 Finished == phase # "running" \/ (hostMoves = MaxHost /\ nsteps = MaxHost + ExtraSteps)
 \* model checking without histories: report which properties fail, with the script that exhibits it
 View == core
 EmitViolations == (Finished /\ Violated # {}) => PrintT(<<"V", ToJson([script |-> script, viol |-> Violated])>>)
 EmitBehaviour == (Emitting /\ Finished) =>
-     PrintT(<<"B", ToJson([script |-> script, hist |-> hist, viol |-> Violated, final |-> Final, phase |-> phase])>>)
+     PrintT(<<"B", ToJson([script |-> script, hist |-> hist, viol |-> Violated, final |-> Final, wgot |-> WGot, phase |-> phase])>>)
 ====
